@@ -20,5 +20,5 @@ PROP = dict(
     level_text=("Hundreds to thousands of short randomized multi-producer scenarios against the real AsyncPipe under TSan (races) and ASan; "
                 "every byte delivered to the sink is attributed to its producer and append. Held on the schedules observed."),
     level_note="trusts the harness's history checker and gcc TSan/ASan; schedules are sampled, not enumerated",
-    required_counters={"all": ["partial_block_flushes", "slow_appends_backpressure", "verif_point_delays", "sink_callbacks", "inline_short_lived_rounds"]},
+    required_counters={"all": ["held_groups", "held_groups_last_before_cleanup", "held_groups_with_backpressure_inside", "partial_block_flushes", "slow_appends_backpressure", "verif_point_delays", "sink_callbacks", "inline_short_lived_rounds"]},
 )
